@@ -702,6 +702,41 @@ func rulesC05(p *Prog, r *Report) {
 		}
 	}
 
+	// R05.9 an order is skipped only when nothing of it is matchable -----------------------------
+	// FulfillOrder fills whatever MatchableAmount says; the tick and group totals count that same
+	// amount. The fill is reachable only behind `matchable > 0` - a stricter test (> 1) skips an
+	// amount that was counted, a missing one fills a zero amount.
+	r.Rule("R05.9", "FulfillOrder: the fill is guarded by matchable amount > 0 (against zero, strictly)", 1)
+	{
+		ff := p.MustFunc("x/liquidity/amm.FulfillOrder")
+		isM := func(v ssa.Value) bool {
+			c, ok := v.(*ssa.Call)
+			return ok && c.Call.StaticCallee() == matchable
+		}
+		g := p.cmpGuard("matchable > 0", isM, isZeroValue, RGT)
+		n := 0
+		for _, f := range p.withSamePkgHelpers(ff) {
+			for _, c := range calls(f) {
+				if c.Common().StaticCallee() != fill {
+					continue
+				}
+				n++
+				r.Instance("R05.9")
+				r.FuncsSeen[fname(ff)] = true
+				construct := fmt.Sprintf("%s fill #%d", fname(ff), n)
+				ok, w := p.GuardedSite(g, c)
+				if !ok && f != ff {
+					ok, w = p.GuardedUp(g, c)
+				}
+				if ok {
+					r.OK("R05.9", construct, "only behind matchable > 0", p.instrPos(c))
+				} else {
+					r.Fail("R05.9", construct, "the order is not filled exactly when its matchable amount is positive (the test is missing, compares with another bound, or is not strict): an amount the tick totals counted is skipped, or a zero amount is filled", p.instrPos(c), w)
+				}
+			}
+		}
+	}
+
 	// R05.8 one matchability criterion for both directions ----------------------------------------
 	// MatchableAmount zeroes an amount whose quote value truncates to zero. The test sits on every
 	// path to the return: a dust amount that one direction may not trade must not be counted for
@@ -872,6 +907,14 @@ func rulesC06(p *Prog, r *Report) {
 				r.Instance("R06.2")
 				construct := fmt.Sprintf("%s result %s", fname(wd), name)
 				got := p.roundDir(v)
+				if got == "DOWN" {
+					// what is paid out is rounded DOWN at every inexact step of its computation
+					for where, dir := range p.chainDirs(v) {
+						if dir != "DOWN" {
+							got = dir + " at " + where
+						}
+					}
+				}
 				if got == "DOWN" {
 					r.OK("R06.2", construct, "rounded DOWN", p.pos(wd.Pos()))
 				} else {
